@@ -321,67 +321,86 @@ fn same_board(a: &Board, b: &Board) -> bool {
         && hash_of_z(&a.inner) == hash_of_z(&b.inner) && *a == *b
 }
 fn checked_play_setup() -> (Board, Move) {
-    let p = any_pos_raw();
-    let mut b = mk_board(&p);
-    b.pinned = BitBoard(kani::any());
-    b.checkers = BitBoard(kani::any());
+    // any accepted board (INV), so that a counterexample can be replayed against the real functions
+    let p = any_inv_pos();
+    let b = mk_board(&p);
     let m = any_move();
     unsafe { ORACLE_LEGAL = kani::any(); AFTER = kani::any(); ASKED = 0; PLAYED = 0; }
     (b, m)
 }
-
-#[kani::proof]
-#[kani::stub(crate::board::Board::is_legal, rec_is_legal)]
-#[kani::stub(crate::board::Board::play_unchecked, rec_play_unchecked)]
-fn c15_try_play() {
-    let (b0, m) = checked_play_setup();
+/// concrete replay (test build: the recording stubs are not applied): the statement itself, with the real
+/// is_legal and play_unchecked
+fn checked_play_real(b0: &Board, m: Move) {
+    let legal = b0.is_legal(m);
     let mut b = b0.clone();
     let r = b.try_play(m);
-    unsafe {
-        // the legality query was consulted exactly once, with this move, on the untouched board
-        assert!(ASKED == 1 && ASKED_MV == mv_of(m) && ASKED_ON == b0.inner.colors(Color::White).0);
-        if ORACLE_LEGAL {
-            assert!(r.is_ok());
-            assert!(PLAYED == 1 && PLAYED_MV == mv_of(m));
-            // identical to what unchecked play produced from the original board
-            let mut expect = b0.clone();
-            expect.pinned = BitBoard(AFTER);
-            assert!(same_board(&b, &expect));
-        } else {
-            assert!(r.is_err());
-            assert!(PLAYED == 0);
-            assert!(same_board(&b, &b0));
+    assert!(r.is_ok() == legal, "try_play succeeds exactly on legal moves");
+    if legal {
+        let mut expect = b0.clone();
+        expect.play_unchecked(m);
+        assert!(same_board(&b, &expect), "try_play leaves the board as play_unchecked produces it");
+    } else {
+        assert!(same_board(&b, b0), "a rejected move leaves the board unchanged");
+    }
+}
+
+board_proof! {
+    #[kani::stub(crate::board::Board::is_legal, rec_is_legal)]
+    #[kani::stub(crate::board::Board::play_unchecked, rec_play_unchecked)]
+    fn c15_try_play() {
+        let (b0, m) = checked_play_setup();
+        if cfg!(test) { checked_play_real(&b0, m); return; }
+        let mut b = b0.clone();
+        let r = b.try_play(m);
+        unsafe {
+            // the legality query was consulted exactly once, with this move, on the untouched board
+            assert!(ASKED == 1 && ASKED_MV == mv_of(m) && ASKED_ON == b0.inner.colors(Color::White).0);
+            if ORACLE_LEGAL {
+                assert!(r.is_ok());
+                assert!(PLAYED == 1 && PLAYED_MV == mv_of(m));
+                // identical to what unchecked play produced from the original board
+                let mut expect = b0.clone();
+                expect.pinned = BitBoard(AFTER);
+                assert!(same_board(&b, &expect));
+            } else {
+                assert!(r.is_err());
+                assert!(PLAYED == 0);
+                assert!(same_board(&b, &b0));
+            }
         }
     }
 }
 
-#[kani::proof]
-#[kani::stub(crate::board::Board::is_legal, rec_is_legal)]
-#[kani::stub(crate::board::Board::play_unchecked, rec_play_unchecked)]
-fn c15_play_legal_no_panic() {
-    let (b0, m) = checked_play_setup();
-    unsafe { ORACLE_LEGAL = true; }
-    let mut b = b0.clone();
-    b.play(m);
-    unsafe {
-        assert!(PLAYED == 1 && PLAYED_MV == mv_of(m));
-        let mut expect = b0.clone();
-        expect.pinned = BitBoard(AFTER);
-        assert!(same_board(&b, &expect));
+board_proof! {
+    #[kani::stub(crate::board::Board::is_legal, rec_is_legal)]
+    #[kani::stub(crate::board::Board::play_unchecked, rec_play_unchecked)]
+    fn c15_play_legal_no_panic() {
+        let (b0, m) = checked_play_setup();
+        if cfg!(test) { if b0.is_legal(m) { let mut b = b0.clone(); b.play(m); } return; }
+        unsafe { ORACLE_LEGAL = true; }
+        let mut b = b0.clone();
+        b.play(m);
+        unsafe {
+            assert!(PLAYED == 1 && PLAYED_MV == mv_of(m));
+            let mut expect = b0.clone();
+            expect.pinned = BitBoard(AFTER);
+            assert!(same_board(&b, &expect));
+        }
     }
 }
 
-#[kani::proof]
-#[kani::should_panic]
-#[kani::stub(crate::board::Board::is_legal, rec_is_legal)]
-#[kani::stub(crate::board::Board::play_unchecked, rec_play_unchecked)]
-fn c15_play_illegal_panics() {
+board_proof! {
+    #[kani::should_panic]
+    #[kani::stub(crate::board::Board::is_legal, rec_is_legal)]
+    #[kani::stub(crate::board::Board::play_unchecked, rec_play_unchecked)]
+    fn c15_play_illegal_panics() {
     let (b0, m) = checked_play_setup();
     unsafe { ORACLE_LEGAL = false; }
     let mut b = b0.clone();
     b.play(m);
     // not reached: if play returned without panicking the harness would end here WITHOUT a panic and
     // Kani reports the should_panic harness as failed
+    }
 }
 
 // =====================================================================================================
@@ -419,5 +438,25 @@ board_proof! {
         assert!(r == sp::spec_same_position(&pa, &pb));
         kani::cover!(r && pa.ep != pb.ep);
         kani::cover!(!r && sp::same_placement(&pa, &pb) && pa.stm == pb.stm && sp::same_rights(&pa, &pb));
+    }
+}
+
+// O-C15.try_play.end-to-end (thorough): no stubs — the real is_legal (loops unwound) and play_unchecked
+// (slider loop cut, invariant not needed here): try_play succeeds exactly on the moves that are legal by
+// the rules, and a rejected move leaves every field unchanged
+board_proof! {
+    #[kani::unwind(9)]
+    fn c15_try_play_end_to_end() {
+        let p = any_inv_pos();
+        let b0 = mk_board(&p);
+        let m = any_move();
+        cut_on();
+        set_inv_off();
+        let mut b = b0.clone();
+        let r = b.try_play(m);
+        assert!(r.is_ok() == sp::spec_legal(&p, mv_of(m)));
+        if r.is_err() {
+            assert!(same_board(&b, &b0));
+        }
     }
 }
